@@ -3,6 +3,7 @@ package main
 import (
 	"fmt"
 	"go/types"
+	"os"
 	"sort"
 	"strings"
 
@@ -136,6 +137,15 @@ func (ex *Exec) intrinsic(fn *ssa.Function, args []Value) (Value, bool) {
 	case "github.com/trzsz/trzsz-go/trzsz.tmuxRefreshClient":
 		ex.stubsUsed[name]++
 		return nil, true
+	case "(*github.com/trzsz/trzsz-go/trzsz.textProgressBar).showProgress":
+		// rendering (clock, speed and percentage floats, layout) is decided separately (C20 A/B/D); here a render is just
+		// an observable write of one marker byte through the real writeProgress, so that harnesses see THAT a line was drawn
+		ex.stubsUsed[name]++
+		if os.Getenv("VSYM_REAL_SHOWPROGRESS") == "" {
+			wp := ex.pkg.Prog.LookupMethod(types.NewPointer(ex.pkg.Type("textProgressBar").Type()), ex.pkg.Pkg, "writeProgress")
+			ex.call(Closure{fn: wp}, []Value{args[0], ex.strConst("R")}, nil)
+			return nil, true
+		}
 	case "(*github.com/trzsz/trzsz-go/trzsz.zmodemTransfer).showProgress":
 		// progress text of the zmodem bridge (float formatting): outside every claim
 		ex.stubsUsed[name]++
